@@ -57,5 +57,15 @@ Record section_t := { sec_id : N; sec_len : N; sec_hdr : shdr; sec_body : body_t
 
 Record pel_t := { p_ph : ph_t; p_uh : uh_t; p_secs : list section_t }.
 
+(* one entry of the message registry (pel_registry / message_registry.json), as far as the decoder reads it *)
+Record reg_word := { rw_num : text; rw_desc : option text; rw_source : text }.     (* Words6To9: "6".."9" -> Description?, AdditionalDataPropSource *)
+Record reg_pel := {
+  r_reason : option text;            (* SRC.ReasonCode, e.g. "0x2030" *)
+  r_type : option text;              (* SRC.Type, default "BD" *)
+  r_message : text;                  (* Documentation.Message, with %1..%9 *)
+  r_args : option (list text);       (* Documentation.MessageArgSources, e.g. ["SRCWord6"; "SRCWord7"] *)
+  r_words : list reg_word }.
+
+
 (* section ids *)
 Definition id_of (a b : N) : N := a * 256 + b.
